@@ -26,6 +26,7 @@ RULE = (
     "controls / sensors / readings with finite magnitudes and strictly positive process noise. distinct = (estimator, "
     "operation); non-trivial = all."
     " Fits are also run from three configurations in which every field differs from its default (incl. extra_validation=True)."
+    " Fit models include sensors with different numbers of readings in both size orders along the key order."
 )
 ASSUMPTIONS = ["scipy.optimize.minimize is deterministic for fixed inputs", "training matrices are finite with dyadic entries"]
 
@@ -34,7 +35,10 @@ def models():
     return [space.bind_def(2, 1, 1, order=1, sensors_shape=(1,), tag="-est"),
             space.bind_def(2, 2, 0, order=0, sensors_shape=(2,), tag="-est"),
             space.bind_def(2, 0, 1, order=2, sensors_shape=(1, 2), tag="-est"),
-            space.bind_def(3, 1, 0, order=3, sensors_shape=(1, 1), tag="-est")]
+            space.bind_def(3, 1, 0, order=3, sensors_shape=(1, 1), tag="-est"),
+            # sensors with different numbers of readings, in both orders of size along the key order (alt < gps < imu)
+            space.bind_def(2, 1, 0, order=1, sensors_shape=(2, 1), tag="-est"),
+            space.bind_def(2, 0, 1, order=0, sensors_shape=(2, 1, 3), tag="-est")]
 
 
 def noise_variant(d, v):
@@ -72,11 +76,12 @@ def domains():
 
 
 def cases(tier, seed):
+    nm = len(models())
     for mi in range(4):
         for v in (0, 1):
             yield {"kind": "params", "model": mi, "noise": v}
-    fits = ([(m, (m + x) % 2, x) for m in range(4) for x in (0, 1, 2)] if tier == "quick"
-            else [(m, v, x) for m in range(4) for v in (0, 1) for x in range(6)])
+    fits = ([(m, (m + x) % 2, x) for m in range(nm) for x in ((0, 1, 2) if m < 4 else (0, 1))] if tier == "quick"
+            else [(m, v, x) for m in range(nm) for v in (0, 1) for x in range(6)])
     for m, v, x in fits:
         yield {"kind": "fit", "model": m, "noise": v, "matrix": x, "seed": seed}
     # "created with an explicit configuration": fits from configurations in which EVERY field differs from its default
